@@ -198,6 +198,9 @@ func (e *env) universe() []common.Address {
 		for _, a := range t.rp.created {
 			u[a] = true
 		}
+		for a := range t.rp.authorities {
+			u[a] = true
+		}
 	}
 	return sortedAddrs(u)
 }
@@ -241,7 +244,7 @@ func (e *env) compareState() []string {
 		if got := e.st.GetCode(x); !bytes.Equal(got, wantCode) {
 			d = append(d, fmt.Sprintf("code of %s = %d bytes %x..., expected %d bytes %x...", name, len(got), head(got, 24), len(wantCode), head(wantCode, 24)))
 		}
-		if !e.fixed[x] {
+		if _, isCreated := e.createdSet()[x]; isCreated {
 			if got, want := e.st.Exist(x), a.nonce > 0; got != want {
 				d = append(d, fmt.Sprintf("existence of create target %s = %v, expected %v", name, got, want))
 			}
@@ -292,4 +295,16 @@ func (e *env) compareLogs(r *txResult) []string {
 		}
 	}
 	return d
+}
+
+func originAddr() common.Address { return evmh.Origin }
+
+func (e *env) createdSet() map[common.Address]bool {
+	u := map[common.Address]bool{}
+	for _, t := range e.txs {
+		for _, a := range t.rp.created {
+			u[a] = true
+		}
+	}
+	return u
 }
